@@ -29,7 +29,7 @@ META: Dict[str, Any] = {
     "pools": [{"backend": "c", "import_strict": True}, {"backend": "c", "import_strict": False},
               {"backend": "py", "import_strict": True}, {"backend": "py", "import_strict": False}],
     "tiers": {
-        "quick": {"runs": 4000, "chunk": 40, "wall": 75, "chunk_wall": 400},
+        "quick": {"runs": 3000, "chunk": 30, "wall": 75, "chunk_wall": 400},
         "thorough": {"runs": 120000, "chunk": 40, "wall": 1200, "chunk_wall": 900},
     },
     "selftest_runs": 4,
@@ -216,9 +216,11 @@ def worker_init() -> None:
     for dl in db.diag_layers:
         layers[f"somersault:{dl.short_name}"] = dl
     from ..zoo.layers import MATRIX_KINDS, build_matrix_layer, build_zoo_layer
+    zoo_truth = {}
     for z in range(c05.N_ZOO):
         layer, truth, used = build_zoo_layer(z)
         layers[f"zoo:{z}"] = layer
+        zoo_truth[f"zoo:{z}"] = {"examples": truth.get("examples", {})}
     for kind in MATRIX_KINDS:
         layers[f"zoo:m_{kind}"] = build_matrix_layer(kind)
     # a layer whose description violates the specification (illegal type/encoding combinations):
@@ -226,7 +228,7 @@ def worker_init() -> None:
     STATE["bad_layer"] = build_matrix_layer("bad")
     c05.STATE["layers"] = layers
     c05.STATE["layer_names"] = sorted(layers)
-    c05.STATE["zoo_truth"] = {}
+    c05.STATE["zoo_truth"] = zoo_truth
     c05.build_corpus(ascii_tails=True)
     layers = dict(layers)
     layers["bad:0"] = STATE["bad_layer"]
@@ -234,8 +236,18 @@ def worker_init() -> None:
     STATE["layer_names"] = sorted(layers)
     with zipfile.ZipFile(p) as z:
         STATE["odx_docs"] = {n: z.read(n) for n in sorted(z.namelist()) if n.endswith(".odx-d")}
+        # the documents they refer to (comparam subsets / specs): loaded unmodified alongside
+        STATE["odx_other"] = {n: z.read(n) for n in sorted(z.namelist())
+                              if os.path.splitext(n)[1].lower().startswith(".odx") and not n.endswith(".odx-d")}
+        STATE["aux_files"] = {n: z.read(n) for n in sorted(z.namelist())
+                              if not os.path.splitext(n)[1].lower().startswith(".odx") and n != "index.xml"}
     build_ops()
     exc_mod.strict_mode = True
+    # harness sanity: an unmutated document must load through the same code path the load operations use
+    with W.quiet():
+        chk = run_op(["load", "odx-mut", sorted(STATE["odx_docs"])[0], "none", 0])
+    if chk[0] != "ok":
+        raise RuntimeError(f"C17 harness: loading an unmutated ODX document failed: {chk}")
     mon = FlipMonitor(worker.pkg_dir(), exc_mod)
     mon.install()
     STATE["mon"] = mon
@@ -360,8 +372,36 @@ def build_ops() -> None:
 
 
 # ------------------------------------------------------------------ generation
+def kept_sweep(tier: str) -> List[Tuple[str, int, bool, bool]]:
+    """Systematic part: every refresh-time value of the shipped document replaced by a value of the wrong lexical
+    form, the database loaded under one mode and refreshed under the other."""
+    cached = STATE.get(("sweep", tier))
+    if cached is not None:
+        return cached
+    from xml.etree import ElementTree
+    out = []
+    tags = ("PHYSICAL-DEFAULT-VALUE", "PHYS-CONSTANT-VALUE", "LOWER-LIMIT", "UPPER-LIMIT", "V", "KEY", "CODED-VALUE",
+            "TERMINATION-VALUE")
+    for doc in sorted(STATE["odx_docs"]):
+        root = ElementTree.fromstring(STATE["odx_docs"][doc])
+        n = len([e for e in root.iter() if e.tag in tags and e.text and e.text.strip()])
+        values = (0, 1, 2) if tier == "quick" else (0, 1, 2, 3, 4, 5)
+        combos = ((False, True), (True, False)) if tier == "quick" else ((False, True), (True, False), (True, True), (False, False))
+        for el in range(n):
+            for vi in values:
+                for a, b in combos:
+                    out.append((doc, el + n * vi, a, b))
+    STATE[("sweep", tier)] = out
+    return out
+
+
 def gen(rs: int, index: int, tier: str) -> Dict[str, Any]:
     batch_seed = worker._STATE.get("batch_seed", 0)
+    sweep = kept_sweep(tier)
+    if index // 2 < len(sweep):
+        doc, k, load_flag, refresh_flag = sweep[index // 2]
+        return {"kind": "run", "ops": [["load_keep", doc, "textval2", k], ["refresh_kept"]],
+                "flips": [[1, -1, refresh_flag]], "initial": load_flag}
     S = Streams(h64("C17run", batch_seed, index // 2))
     r = S.rng("ops")
     names = STATE["layer_names"]
@@ -383,8 +423,17 @@ def gen(rs: int, index: int, tier: str) -> Dict[str, Any]:
             op = ["load", "pdx"]
         else:
             doc = rl.choice(sorted(STATE["odx_docs"]))
-            op = ["load", "odx-mut", doc, rl.choice(["elem", "elem", "attr", "text"]), rl.randint(0, 100000)]
+            op = ["load", "odx-mut", doc, rl.choice(["elem", "elem", "attr", "text", "textval"]), rl.randint(0, 100000)]
         ops.insert(rl.randint(0, len(ops)), op)
+    # an object that outlives a mode switch: a database loaded under one mode and refreshed under another
+    rk = S.rng("keep")
+    if rk.random() < 0.5:
+        doc = rk.choice(sorted(STATE["odx_docs"]))
+        what = rk.choice(["textval2", "textval2", "textval2", "textval", "elem", "attr", "text"])
+        pos = rk.randint(0, max(0, len(ops) - 1))
+        ops.insert(pos, ["load_keep", doc, what, rk.randint(0, 100000)])
+        for _ in range(rk.randint(1, 2)):
+            ops.insert(rk.randint(pos + 1, len(ops)), ["refresh_kept"])
     # the command line front end switches the mode for the duration of a tool run
     rc = S.rng("cli")
     for _ in range(weighted(rc, [0, 1, 2], [6, 3, 1])):
@@ -414,6 +463,8 @@ def mutate_odx(doc: bytes, what: str, k: int):
     violation that odxrequire/odxassert may flag)."""
     from xml.etree import ElementTree
     root = ElementTree.fromstring(doc)
+    if what == "none":
+        return root
     if what == "elem":
         pairs = [(p, c) for p in root.iter() for c in list(p)]
         if pairs:
@@ -424,12 +475,32 @@ def mutate_odx(doc: bytes, what: str, k: int):
         if pairs2:
             e, a = pairs2[k % len(pairs2)]
             del e.attrib[a]
+    elif what == "textval2":
+        # the same, aimed at values that are converted when the database is refreshed (not when it is parsed)
+        tags = ("PHYSICAL-DEFAULT-VALUE", "PHYS-CONSTANT-VALUE", "LOWER-LIMIT", "UPPER-LIMIT", "V", "KEY", "CODED-VALUE",
+                "TERMINATION-VALUE")
+        els = [e for e in root.iter() if e.tag in tags and e.text and e.text.strip()]
+        if els:
+            e = els[k % len(els)]
+            e.text = ["2.5", "abc", "-1", "0x10", "99999999999", "1e3"][(k // max(1, len(els))) % 6]
+    elif what == "textval":
+        # a value of the wrong lexical form (e.g. "2.5" where an integer is expected)
+        els = [e for e in root.iter() if e.text and e.text.strip() and len(e) == 0]
+        if els:
+            e = els[k % len(els)]
+            e.text = ["2.5", "abc", "-1", "0x10", "99999999999", "1e3"][(k // max(1, len(els))) % 6]
     else:
         els = [e for e in root.iter() if e.text and e.text.strip()]
         if els:
             e = els[k % len(els)]
             e.text = ""
     return root
+
+
+def xml_stream(root):
+    """The (mutated) document as a byte stream for Database.add_odx_file() (ElementTree.parse accepts it)."""
+    from xml.etree import ElementTree
+    return io.BytesIO(ElementTree.tostring(root, encoding="utf-8", xml_declaration=True))
 
 
 def db_summary(db) -> Any:
@@ -484,9 +555,32 @@ def run_op(op: List[Any]) -> Tuple[str, Any]:
             else:
                 root = mutate_odx(STATE["odx_docs"][op[2]], op[3], op[4])
                 db = Database()
-                db.add_xml_tree(root)
+                for other in STATE["odx_other"].values():
+                    db.add_odx_file(io.BytesIO(other))  # type: ignore[arg-type]
+                for an, ab in STATE["aux_files"].items():
+                    db.add_auxiliary_file(an, io.BytesIO(ab))
+                db.add_odx_file(xml_stream(root))  # type: ignore[arg-type]
                 db.refresh()
             return "ok", db_summary(db)
+        if kind == "load_keep":
+            from odxtools.database import Database
+            STATE["kept"] = None
+            root = mutate_odx(STATE["odx_docs"][op[1]], op[2], op[3])
+            db = Database()
+            for other in STATE["odx_other"].values():
+                db.add_odx_file(io.BytesIO(other))  # type: ignore[arg-type]
+            for an, ab in STATE["aux_files"].items():
+                db.add_auxiliary_file(an, io.BytesIO(ab))
+            db.add_odx_file(xml_stream(root))  # type: ignore[arg-type]
+            db.refresh()
+            STATE["kept"] = (db, op[1:4])
+            return "ok", db_summary(db)
+        if kind == "refresh_kept":
+            kept = STATE.get("kept")
+            if kept is None:
+                return "ok", "no-db"
+            kept[0].refresh()
+            return "ok", db_summary(kept[0])
         if kind == "cli":
             import odxtools.cli.main as cli_main
             argv = ["odxtools"] + [STATE["pdx_path"] if a == "PDX" else a for a in op[1]]
@@ -504,7 +598,13 @@ def run_op(op: List[Any]) -> Tuple[str, Any]:
     except HangVerdict:
         raise
     except Exception as e:  # noqa: BLE001
-        return "exc", exc_sig(e)
+        sig = exc_sig(e)
+        if kind in ("load", "load_keep", "refresh_kept"):
+            import traceback
+            thru = any(fs.name == "refresh" and fs.filename.endswith("database.py")
+                       for fs in traceback.extract_tb(e.__traceback__))
+            sig["phase"] = "refresh" if thru else "parse"
+        return "exc", sig
 
 
 def result_shape(op: List[Any], st: List[Any], sl: List[Any]) -> str:
@@ -544,7 +644,7 @@ def strict_failure_site(op: List[Any], sl: List[Any], exc_mod) -> str:
                     try:
                         co.decode(pdu)
                     except Exception as e:  # noqa: BLE001
-                        sites.add(exc_site(e))
+                        sites.add(type(e).__name__ + "@" + exc_site(e))
     finally:
         exc_mod.strict_mode = old
     return ",".join(sorted(sites)) or "none"
@@ -602,7 +702,10 @@ def execute(trace: Dict[str, Any]) -> Dict[str, Any]:
                 # phase A: reference outcomes under constant flag values
                 ref: Dict[str, Dict[bool, str]] = {}
                 order: List[List[Any]] = []
+                STATE["kept"] = None
                 for op in ops:
+                    if op[0] in ("load_keep", "refresh_kept"):
+                        continue  # stateful: judged in the history against a fresh load (below)
                     k = op_key(op)
                     if k not in ref:
                         ref[k] = {}
@@ -640,7 +743,10 @@ def execute(trace: Dict[str, Any]) -> Dict[str, Any]:
                             site = strict_failure_site(op, sl, exc_mod)
                             # the file is part of the signature (known findings are keyed by it: robust against
                             # renaming/splitting functions); the full site goes into the detail
-                            sig1["strict_file"] = ",".join(sorted({x.split(":")[0] for x in site.split(",")}))
+                            # the exception class of the strict-mode failure is part of the signature (the known
+                            # finding is the family "a DecodeError raised through odxraise / strict text decoding");
+                            # the sites go into the detail
+                            sig1["strict_exc"] = ",".join(sorted({x.split("@")[0] for x in site.split(",")}))
                             strict_site_detail = site
                         violations.append({
                             "oracle": "C17.O1-lenient-changes-nothing-valid",
@@ -683,6 +789,34 @@ def execute(trace: Dict[str, Any]) -> Dict[str, Any]:
                     if fired:
                         faults["flip_inside_operation"] = faults.get("flip_inside_operation", 0) + fired
                         log.ev("controller", "flip-inside", {"op": i, "fired": fired})
+                    if op[0] in ("load_keep", "refresh_kept"):
+                        log.ev("app", "op", {"i": i, "v": v0, "kind": op[0], "outcome": h64(outcome_str(o))})
+                        if op[0] == "refresh_kept" and not changed and STATE.get("kept") is not None and fired == 0:
+                            # refreshing an object that was loaded earlier (possibly under the other mode) must behave
+                            # like loading the same document now, as far as refresh() is concerned
+                            probes["refresh_of_kept_database"] = probes.get("refresh_of_kept_database", 0) + 1
+                            doc = STATE["kept"][1]
+                            keep_obj = STATE["kept"]
+                            exc_mod.strict_mode = v0
+                            mon.arm({})
+                            fresh = run_op(["load", "odx-mut", doc[0], doc[1], doc[2]])
+                            mon.disarm()
+                            STATE["kept"] = keep_obj
+                            exc_mod.strict_mode = v0
+                            bad = None
+                            if fresh[0] == "ok" and outcome_str(o) != outcome_str(fresh):
+                                bad = "fresh load succeeds"
+                            elif fresh[0] == "exc" and fresh[1].get("phase") == "refresh" and (
+                                    o[0] != "exc" or (o[1].get("exc"), o[1].get("site")) != (fresh[1].get("exc"), fresh[1].get("site"))):
+                                bad = "fresh load fails in refresh()"
+                            if bad:
+                                violations.append({
+                                    "oracle": "C17.O2-history-independence",
+                                    "sig": {"kind": "refresh", "v": v0, "ref": outcome_class(outcome_str(fresh)),
+                                            "now": outcome_class(outcome_str(o))},
+                                    "detail": {"op": op, "document": doc, "flag": v0, "what": bad,
+                                               "fresh_load": outcome_str(fresh)[:300], "refresh_of_kept": outcome_str(o)[:300]}})
+                        continue
                     if not changed:
                         # executed entirely under v0: the outcome must depend on v0 only
                         k = op_key(op)
